@@ -26,6 +26,9 @@ type Outcome struct {
 	Ticks      int64
 	V          []Violation
 	Sample     interface{} // human-readable rendering, only when asked for
+	// Poisoned: the process must not run further cases (e.g. a deadlock left
+	// parked goroutines holding locks); the worker reports and exits 4.
+	Poisoned bool
 }
 
 func (o *Outcome) violate(class, sig, format string, a ...interface{}) {
